@@ -124,7 +124,8 @@ def check_seq(seq, case):
     def v(key, what, **kw):
         out.append({"key": key, "what": what, "case": dict(case, seq=seq, **kw)})
     try:
-        a = api_vector(SP(seq))
+        with core.istate(seq):
+            a = api_vector(SP(seq))
     except Exception as e:  # noqa
         v("exception", "composition getter raised %r for %s" % (e, seq))
         return out, None
